@@ -50,12 +50,16 @@ def gen_graph(rng):
     return " ".join(defs)
 
 
-def gen(tier, rng, harness=None):
+def gen(tier, rng, harness=None, driver=None):
     # specialised debug-info nodes: every field that references a numbered node must print that node's ID (`scope: !91`, `expr: !97`, ...),
     # and inline nodes must stay inline (the one-construct catalogue of C01, here for its reference fields)
     from . import catalog
     from .modprops import hx
     lines = ["!mod.keeps %s %s" % (hx("\x1f".join(frags or [])), hx(text)) for name, text, frags in catalog.DI if "splitDebugInlining" not in name]
+    # M-Meta: whole metadata sections at byte level (proved: IDs unique and ascending in every accepted section, every reference denotes exactly one definition)
+    from . import metagen
+    lines += metagen.print_lines(rng, 150 if tier == "quick" else 6000)
+    lines += metagen.parse_stream(rng, driver, 100 if tier == "quick" else 4000)
     n = 600 if tier == "quick" else 30000
     for _ in range(n):
         ids = gen_ids(rng)
@@ -146,6 +150,8 @@ def nontrivial(ln, model_out):
 
 def search(ln, a, b, harness, driver):
     p = ln.split()
+    if p[0].startswith("meta."):
+        return {"ops": [ln], "impl": [a], "model": [b]}
     ids = [int(x) for x in p[1].split(",")] if p[1] != "-" else []
     seen, out = set(), []
     for x in ids:
